@@ -320,13 +320,23 @@ func collectAccesses(pkg *types.Package, nodes ...ast.Node) []pkgAccess {
 		out = append(out, pkgAccess{key, write})
 	}
 	handled := map[*ast.Ident]bool{}
+	// The announcement is made before the statement, the accesses happen inside it.  That is the
+	// same thing unless the statement itself synchronises before the access: a read that follows
+	// a call which may synchronise (`if ready() && table[k]`: the read happens only after, and
+	// only if, ready() saw the flag) or any explicit synchronisation operation, and a store
+	// whose right-hand side synchronises (`shared = <-ch`), are NOT announced - fewer reports,
+	// never a report for an access the statement has ordered.
+	barrier, explicitSync := syncBarrier(pkg, nodes)
 	// target: e is assigned to (or otherwise modified in place)
 	target := func(e ast.Expr) {
 		if k, within, ok := accessPath(e, pkg); ok {
-			add(k, within) // assigning to storage outside the variable (slice element, pointee) only reads it
 			if id := rootIdent(e); id != nil {
 				handled[id] = true
 			}
+			if explicitSync {
+				return
+			}
+			add(k, within) // assigning to storage outside the variable (slice element, pointee) only reads it
 		}
 	}
 	for _, node := range nodes {
@@ -385,7 +395,9 @@ func collectAccesses(pkg *types.Package, nodes ...ast.Node) []pkgAccess {
 			case *ast.SelectorExpr, *ast.IndexExpr, *ast.StarExpr:
 				if id := rootIdent(y.(ast.Expr)); id != nil && !handled[id] {
 					if k, _, ok := accessPath(y.(ast.Expr), pkg); ok {
-						add(k, false)
+						if !barrier.IsValid() || id.Pos() < barrier {
+							add(k, false)
+						}
 						handled[id] = true
 					}
 				}
@@ -394,13 +406,85 @@ func collectAccesses(pkg *types.Package, nodes ...ast.Node) []pkgAccess {
 					return true
 				}
 				if v := pkgVarOf(y, pkg); v != nil && !isSyncNamed(v.Type()) {
-					add(v.Name(), false)
+					if !barrier.IsValid() || y.Pos() < barrier {
+						add(v.Name(), false)
+					}
 				}
 			}
 			return true
 		})
 	}
 	return out
+}
+
+// syncBarrier returns the position after which a read inside the given nodes may have been
+// ordered by the statement itself (the end of the first call that may synchronise, or of the first
+// explicit synchronisation operation), and whether there is an explicit synchronisation operation.
+func syncBarrier(pkg *types.Package, nodes []ast.Node) (barrier token.Pos, explicit bool) {
+	note := func(p token.Pos) {
+		if !barrier.IsValid() || p < barrier {
+			barrier = p
+		}
+	}
+	for _, node := range nodes {
+		if node == nil || isNilNode(node) {
+			continue
+		}
+		ast.Inspect(node, func(n ast.Node) bool {
+			switch y := n.(type) {
+			case *ast.FuncLit:
+				return false
+			case *ast.SendStmt:
+				explicit = true
+				note(y.Pos())
+			case *ast.UnaryExpr:
+				if y.Op == token.ARROW {
+					explicit = true
+					note(y.Pos())
+				}
+			case *ast.GoStmt, *ast.DeferStmt:
+				// the call is not executed now; its operands are
+				return true
+			case *ast.CallExpr:
+				if tv, ok := info.Types[y.Fun]; ok && tv.IsType() {
+					return true // conversion
+				}
+				if id, ok := ast.Unparen(y.Fun).(*ast.Ident); ok {
+					if _, isB := info.Uses[id].(*types.Builtin); isB {
+						return true
+					}
+				}
+				if sel, ok := y.Fun.(*ast.SelectorExpr); ok {
+					if syncMethod(sel) != "" {
+						explicit = true
+						note(y.Pos())
+						return true
+					}
+					if _, _, _, ok := isAnyPkgCall(y.Fun, map[string][]string{"sync/atomic": atomicFuncs}); ok {
+						explicit = true
+						note(y.Pos())
+						return true
+					}
+					// a function or method of another package (not through an interface) cannot reach
+					// this package's locks, channels and atomics
+					if se := info.Selections[sel]; se != nil {
+						if f, ok := se.Obj().(*types.Func); ok && f.Pkg() != nil && f.Pkg() != pkg {
+							if _, isIface := se.Recv().Underlying().(*types.Interface); !isIface {
+								return true
+							}
+						}
+					} else if id, ok := sel.X.(*ast.Ident); ok {
+						if _, isPkg := info.Uses[id].(*types.PkgName); isPkg {
+							return true
+						}
+					}
+				}
+				note(y.Rparen + 1)
+			}
+			return true
+		})
+	}
+	return barrier, explicit
 }
 
 func isNilNode(n ast.Node) bool {
